@@ -86,6 +86,20 @@ class C05(Engine):
             left = self.gen_tree(rng, depth - 1, counter, final=False, flat_ops=(op,))
             right = self.gen_leaf(rng, counter[0], final, False, allow_bare=True)
             counter[0] += 1
+            if op == "||" and rng.random() < 0.3:
+                # a FAILING `$[...]` operand that is not the last one of a flat `||` chain: its value (None) is falsy and
+                # its exit code is a failure, so both readings agree - the chain goes on, and nothing raises there
+                lf = left
+                while "op" in lf and rng.random() < 0.5:
+                    lf = lf["l"]
+                if "op" in lf:
+                    lf = lf["r"]
+                if lf.get("form") in CHAIN_FORMS:
+                    lf["form"] = "$[]"
+                    lf["deco"] = None
+                    lf["stages"][-1]["rc"] = 3
+                    if lf["stages"][-1]["kind"] == "uproc":
+                        lf["stages"][-1]["kind"] = "proc"
             return {"op": op, "l": left, "r": right, "paren": False}
         left = self.gen_tree(rng, depth - 1, counter, final=False)
         right = self.gen_tree(rng, depth - 1, counter, final=final)
